@@ -62,7 +62,8 @@ class Contract:
     def __init__(self, key, prop, types=None, returns=None, requires=(), ensures=(), ensures_exc=(),
                  raises=None, modifies=(), effects=(), loops=None, locals=None, inline=False, funcs=None,
                  ghost=None, mode="prove", unroll=None, comps=None, name=None, setup=(), max_paths=None,
-                 frame=None, lock=None, replay=None, timeout_ms=None, axioms=(), post_setup=(), pure_result=None, asserts=None, nonlinear=False):
+                 frame=None, lock=None, replay=None, timeout_ms=None, axioms=(), post_setup=(), pure_result=None, asserts=None, nonlinear=False,
+                 region=None, sort_facts=True):
         self.key = key
         self.prop = prop if isinstance(prop, (list, tuple)) else [prop]
         self.short = name or key.split(":", 1)[1]
@@ -92,6 +93,8 @@ class Contract:
         self.post_setup = list(post_setup)
         self.asserts = dict(asserts or {})
         self.nonlinear = nonlinear
+        self.region = region
+        self.sort_facts = sort_facts
         self.pure_result = pure_result
         if pure_result is not None:
             self.ensures.append(("pure-result", "result == (%s)" % pure_result))
@@ -804,7 +807,7 @@ class Verifier:
             if c.mode == "bounded" and c.unroll:
                 self.unroll_bound = c.unroll
             try:
-                I.exec_block(node.body, env)
+                I.exec_block(region_body(c, mod, node), env)
                 result = VNone()
             except ReturnSig as r:
                 result = r.v
@@ -841,6 +844,39 @@ class Verifier:
                 path.prove(I.eval_spec(cond, I.old_env), "%s/raises-only-if:%s" % (c.short, cls), "raises", where=cond)
         for nm, src in c.ensures_exc:
             path.prove(I.eval_spec(src, env), "%s/post-exc:%s" % (c.short, nm), "post", where=src)
+
+
+def region_body(c, mod, node):
+    """Region contracts: `region=(first, last)` verifies only the consecutive statements of one statement list of
+    the function, from the statement whose source text starts with `first` to the one starting with `last`
+    (both anchors must be unique among the statements of the function; nested defs included).  Live-in locals are
+    declared in `types`; the clauses may mention the locals live at the region end.  Anchors are matched against
+    the source as it is on disk now: a vanished anchor is an error, never a silent pass."""
+    if not c.region:
+        return node.body
+    first, last = c.region
+    hits = []
+
+    def norm(st):
+        return " ".join(mod.segment(st).split())
+
+    def walk(n):
+        for fld in ("body", "orelse", "finalbody"):
+            lst = getattr(n, fld, None)
+            if isinstance(lst, list) and lst and isinstance(lst[0], ast.stmt):
+                starts = [i for i, st in enumerate(lst) if norm(st).startswith(first)]
+                for i in starts:
+                    ends = [j for j in range(i, len(lst)) if norm(lst[j]).startswith(last)]
+                    if ends:
+                        hits.append(lst[i:ends[0] + 1])
+                for st in lst:
+                    walk(st)
+        for h in getattr(n, "handlers", []) or []:
+            walk(h)
+    walk(node)
+    if len(hits) != 1:
+        raise Unsupported("region anchors %r .. %r match %d statement ranges in %s" % (first, last, len(hits), c.key))
+    return hits[0]
 
 
 def exec_ghost(self, st, env, extra=None, skip_unbound=False):
